@@ -123,3 +123,15 @@ Theorem C01_checked :
            Some (root (gi_rules gi) tr) = hd_error (rhs_of (gi_rules gi) 0) /\ yield tr = w /\ post tr = reds.
 Proof. exact WfGrammar.checked_sound. Qed.
 Print Assumptions C01_checked.
+
+From YG Require Import Lexer YParser Front Pipeline EndToEnd EndToEndProofs.
+Close Scope Z_scope.
+Open Scope nat_scope.
+
+(* from the bytes of the grammar file: tables are generated from a text exactly when the text parses to an AST (C10), the front end turns it into a grammar object (C11, C12) and generate_tables succeeds on that object - so C01_checked, C02_checked, C03_checked, C05..C08 read as statements about the file, with the boolean check wf_gi evaluated on the object *)
+Theorem C01_text_link :
+  forall (s : list Ascii.ascii) (b : built) (t : tables),
+         generate_text s = GOk b t <->
+         (exists a : ast, parse_text s = PAst a /\ front a = inr b /\ generate_tables (b_gi b) = inr t).
+Proof. exact EndToEndProofs.generate_text_ok. Qed.
+Print Assumptions C01_text_link.
